@@ -80,7 +80,7 @@ CLAIMED = {
              "display strings is not modelled (the harness parses them back); no leap seconds, as in Go.", design="5/C06",
         technique="Coq proof (per-constellation invariant, rollover arithmetic by lia/nia) + history correspondence"),
     "C15": dict(
-        text="Theorem C15_stream_state_independent (axiom-free): what the stream handler delivers for a byte stream (types, raw bytes, error texts, raw timestamps, whether a time could be derived) is the same for every handler state. Theorem C15_state_independent (axiom-free): what the model's GetMessage reports about a frame apart from the two time "
+        text="Theorem C15_display_idempotent (axiom-free, Display.v): a second String() gives the same text, leaves the message as the first left it (decoded form cached, decoder errors reproduced) and never changes raw bytes or type. Theorem C15_stream_state_independent (axiom-free): what the stream handler delivers for a byte stream (types, raw bytes, error texts, raw timestamps, whether a time could be derived) is the same for every handler state. Theorem C15_state_independent (axiom-free): what the model's GetMessage reports about a frame apart from the two time "
              "values is the same for every handler state; the decoders do not take the handler at all (by type). The heap-level "
              "half (hidden caches, aliasing, races) is carried by the harness: batches of frames decoded fresh / after others / by "
              "2-8 handlers in parallel goroutines / as fanned-out copies with a scribbling consumer, display repeated three times, "
@@ -173,7 +173,7 @@ CLAIMED = {
         note=CORR + "Same modelling of time as C06.", design="5/C17",
         technique="Coq proof (per-constellation invariant) + history correspondence"),
     "C07": dict(
-        text="Theorems C07_stream, C07_single (axiom-free): the modelled stream handler and GetMessage return normally (never Panic, "
+        text="Theorem C07_display (axiom-free, Display.v): the lazily analysed Message and its String method (dispatch on the type to the decoders, caching, error short-cuts; text layout abstract) return normally with text for every message, type and level. Theorem C07_decoders: the MSM4/MSM7 decoders never panic on any bytes. Theorems C07_stream, C07_single (axiom-free): the modelled stream handler and GetMessage return normally (never Panic, "
              "fuel S(length input) suffices) for arbitrary bytes. The harness runs every CRC-valid frame of the 16 decodable types "
              "over boundary/small payload lengths (thorough: all 1..1023) with random/ones/zeros/mask-heavy/illegal-timestamp bodies "
              "through HandleMessages, GetMessage, Analyse and String at both log levels under recover and a deadline.",
